@@ -145,6 +145,8 @@ func runC03(p *core.Program, r *core.Report) {
 	decodeInPlace(p, x, r, "C03.in-place", []string{"lang/pack"})
 	r.Rule("C03.tail-threshold", "an optional tail is not taken for missing because little is left: a byte threshold on what is left of the decoder's own blob is no larger than the shortest encoding of the reads it guards", 0)
 	tailGuardRule(p, r, "C03.tail-threshold", "lang/pack")
+	r.Rule("C03.stateless", "what a pack encodes or decodes to depends on that pack and those bytes only: no function of lang/pack writes package-level state (shared with C16.stateless)", 1)
+	statelessRule(p, r, "C03.stateless", []string{"lang/pack"})
 	r.Rule("C03.verbatim-input", "a decoder entry point builds its input stream over the bytes it was handed (or an explicit re-slice), never over what a function made of them", 2)
 	c03VerbatimInput(p, r, "C03.verbatim-input", []string{"lang/pack"})
 	r.Rule("C03.order", "record containers carry the inner packs in the order given: no function taking or returning a list of packs hands it to a sorting, shuffling or reversing routine", 1)
